@@ -94,6 +94,7 @@ func childMain(args []string) {
 	prefix := fs.String("prefix", "", "")
 	nidx := fs.Int("nidx", 1, "")
 	opsFile := fs.String("ops", "", "")
+	slowUs := fs.Int("slowus", 0, "")
 	fs.Parse(args)
 	b, err := os.ReadFile(*opsFile)
 	if err != nil {
@@ -111,6 +112,11 @@ func childMain(args []string) {
 		os.Exit(3)
 	}
 	say := func(s string) { os.Stdout.WriteString(s + "\n") } // unbuffered: one write(2) per line
+	if *slowUs > 0 {
+		// an application OnChange listener that takes a while: inside Init it runs before the
+		// transaction commits, after the index task of the same seed was queued
+		st.OnChange(func(string, interface{}, interface{}) { time.Sleep(time.Duration(*slowUs) * time.Microsecond) })
+	}
 	say("READY")
 	for _, o := range ops {
 		var err error
@@ -154,6 +160,7 @@ type lifeSpec struct {
 	Ops     []op   `json:"ops"`
 	Kill    string `json:"kill,omitempty"`     // "<point>:<n>"
 	DelayUs int    `json:"delay_us,omitempty"` // > 0: SIGKILL that long after READY
+	SlowUs  int    `json:"slow_us,omitempty"`  // > 0: register a slow OnChange listener
 }
 
 type lifeResult struct {
@@ -171,7 +178,7 @@ func runLife(dbdir, scratch string, n int, prefix string, nidx int, ls lifeSpec)
 	of := fmt.Sprintf("%s/ops%d.json", scratch, n)
 	ob, _ := json.Marshal(ls.Ops)
 	os.WriteFile(of, ob, 0o644)
-	cmd := exec.Command(self, "child", "-dir", dbdir, "-prefix", prefix, "-nidx", strconv.Itoa(nidx), "-ops", of)
+	cmd := exec.Command(self, "child", "-dir", dbdir, "-prefix", prefix, "-nidx", strconv.Itoa(nidx), "-ops", of, "-slowus", strconv.Itoa(ls.SlowUs))
 	cmd.Env = append(os.Environ(), "VERIF_KILL="+ls.Kill)
 	var errb bytes.Buffer
 	cmd.Stderr = &errb
@@ -180,7 +187,9 @@ func runLife(dbdir, scratch string, n int, prefix string, nidx int, ls lifeSpec)
 		r.fatal = "start: " + err.Error()
 		return r
 	}
-	ready := make(chan time.Time, 1)
+	var mu sync.Mutex
+	var tReady time.Time
+	ready := make(chan struct{})
 	var lines []string
 	done := make(chan struct{})
 	go func() {
@@ -188,17 +197,20 @@ func runLife(dbdir, scratch string, n int, prefix string, nidx int, ls lifeSpec)
 		for sc.Scan() {
 			l := sc.Text()
 			if l == "READY" {
-				ready <- time.Now()
+				mu.Lock()
+				tReady = time.Now()
+				mu.Unlock()
+				close(ready)
 			}
 			lines = append(lines, l)
 		}
 		close(done)
 	}()
-	watchdog := time.AfterFunc(60*time.Second, func() { r.fatal = "hang"; cmd.Process.Kill() })
-	var t0 time.Time
+	var hung bool
+	watchdog := time.AfterFunc(60*time.Second, func() { mu.Lock(); hung = true; mu.Unlock(); cmd.Process.Kill() })
 	if ls.DelayUs > 0 {
 		select {
-		case t0 = <-ready:
+		case <-ready:
 			time.Sleep(time.Duration(ls.DelayUs) * time.Microsecond)
 			cmd.Process.Kill()
 		case <-done:
@@ -207,14 +219,14 @@ func runLife(dbdir, scratch string, n int, prefix string, nidx int, ls lifeSpec)
 	<-done
 	err := cmd.Wait()
 	watchdog.Stop()
-	select {
-	case t := <-ready:
-		t0 = t
-	default:
+	mu.Lock()
+	if !tReady.IsZero() {
+		r.dur = time.Since(tReady)
 	}
-	if !t0.IsZero() {
-		r.dur = time.Since(t0)
+	if hung {
+		r.fatal = "child hung (60 s watchdog)"
 	}
+	mu.Unlock()
 	clean := false
 	for _, l := range lines {
 		switch {
@@ -229,18 +241,20 @@ func runLife(dbdir, scratch string, n int, prefix string, nidx int, ls lifeSpec)
 			r.fatal = l
 		}
 	}
-	if clean && err == nil {
+	killed := err != nil && strings.Contains(err.Error(), "killed")
+	switch {
+	case r.fatal != "":
+	case clean && err == nil:
 		r.pt = 0
-	} else if clean || (err != nil && !strings.Contains(err.Error(), "killed")) {
-		if r.fatal == "" {
-			r.fatal = fmt.Sprintf("child ended abnormally: %v %s", err, errb.String())
-		}
-	} else if ls.DelayUs > 0 {
-		r.pt = 11
-	} else {
+	case killed && ls.DelayUs > 0:
+		// possibly after the HITS line (everything done, database not closed yet)
+		r.pt, r.hits = 11, nil
+	case killed && !clean && ls.Kill != "":
 		i := strings.LastIndexByte(ls.Kill, ':')
 		r.pt = pointCode(ls.Kill[:i])
 		r.occ, _ = strconv.Atoi(ls.Kill[i+1:])
+	default:
+		r.fatal = fmt.Sprintf("child ended abnormally: %v %s", err, errb.String())
 	}
 	return r
 }
@@ -248,8 +262,76 @@ func runLife(dbdir, scratch string, n int, prefix string, nidx int, ls lifeSpec)
 // ---------------------------------------------------------------- parent: observing the database
 
 type entry struct {
-	k string
-	v *val
+	K string `json:"k"`
+	V *val   `json:"v,omitempty"`
+}
+
+// what the observer process (role "observe") reports
+type observation struct {
+	Entries    []entry             `json:"entries"`
+	Bad        string              `json:"bad,omitempty"`
+	OpenErr    string              `json:"open_err,omitempty"`
+	RebuildErr string              `json:"rebuild_err,omitempty"`
+	QueryErr   string              `json:"query_err,omitempty"`
+	Queries    map[string][]string `json:"queries,omitempty"`
+}
+
+// observeMain opens the database in a process of its own (the parent never holds a BadgerDB
+// directory lock, so no forked child can inherit one), optionally calls RebuildIndexes and
+// queries every index, and prints everything it sees as JSON.
+func observeMain(args []string) {
+	fs := flag.NewFlagSet("observe", flag.ExitOnError)
+	dir := fs.String("dir", "", "")
+	prefix := fs.String("prefix", "", "")
+	nidx := fs.Int("nidx", 1, "")
+	rebuild := fs.Bool("rebuild", false, "")
+	fs.Parse(args)
+	var o observation
+	db, _, qs, err := openStore(*dir, *prefix, *nidx)
+	if err != nil {
+		o.OpenErr = err.Error()
+	} else {
+		if *rebuild {
+			if err := qs.RebuildIndexes(); err != nil {
+				o.RebuildErr = err.Error()
+			}
+		}
+		o.Entries, o.Bad = dump(db)
+		if *rebuild {
+			o.Queries = map[string][]string{}
+			for _, name := range []string{"ia", "ib"}[:*nidx] {
+				res, err := qs.Query(url.Values{"idx": {name}})
+				if err != nil {
+					o.QueryErr = err.Error()
+				}
+				ids, _ := res.([]string)
+				sort.Strings(ids)
+				o.Queries[name] = ids
+			}
+		}
+		if err := db.Close(); err != nil {
+			o.Bad += " close: " + err.Error()
+		}
+	}
+	b, _ := json.Marshal(o)
+	os.Stdout.Write(b)
+	os.Exit(0)
+}
+
+func observe(dir, prefix string, nidx int, rebuild bool) (o observation) {
+	args := []string{"observe", "-dir", dir, "-prefix", prefix, "-nidx", strconv.Itoa(nidx)}
+	if rebuild {
+		args = append(args, "-rebuild")
+	}
+	out, err := exec.Command(self, args...).Output()
+	if err != nil {
+		o.OpenErr = "observer process failed: " + err.Error()
+		return
+	}
+	if err := json.Unmarshal(out, &o); err != nil {
+		o.OpenErr = "observer output: " + err.Error()
+	}
+	return
 }
 
 func dump(db *badger.DB) (es []entry, bad string) {
@@ -258,14 +340,14 @@ func dump(db *badger.DB) (es []entry, bad string) {
 		defer it.Close()
 		for it.Rewind(); it.Valid(); it.Next() {
 			item := it.Item()
-			e := entry{k: string(item.KeyCopy(nil))}
+			e := entry{K: string(item.KeyCopy(nil))}
 			item.Value(func(d []byte) error {
 				if len(d) > 0 {
 					var v val
 					if err := json.Unmarshal(d, &v); err != nil {
-						bad = fmt.Sprintf("undecodable value at key %q: %q", e.k, d)
+						bad = fmt.Sprintf("undecodable value at key %q: %q", e.K, d)
 					}
-					e.v = &v
+					e.V = &v
 				}
 				return nil
 			})
@@ -281,10 +363,10 @@ func V(a, b string) string { return "(" + B(a) + "," + B(b) + ")" }
 func obsTerm(es []entry) string {
 	xs := make([]string, len(es))
 	for i, e := range es {
-		if e.v == nil {
-			xs[i] = "(" + B(e.k) + ",None)"
+		if e.V == nil {
+			xs[i] = "(" + B(e.K) + ",None)"
 		} else {
-			xs[i] = "(" + B(e.k) + ",Some " + V(e.v.A, e.v.B) + ")"
+			xs[i] = "(" + B(e.K) + ",Some " + V(e.V.A, e.V.B) + ")"
 		}
 	}
 	return List(xs)
@@ -367,27 +449,26 @@ func runJob(d jobDesc) (jo jobOut) {
 		if r.pt == 0 {
 			jo.stats["life-clean"]++
 		} else {
-			jo.stats["life-killed-at-"+map[bool]string{true: "random-time", false: points[r.pt%11]}[r.pt == 11]]++
+			jo.stats["life-killed-at-"+append(points, "random-time")[r.pt]]++
 		}
-		db, _, _, err := openStore(dbdir, d.Prefix, d.NIdx)
-		if err != nil {
-			fail("reopen after lifetime " + strconv.Itoa(n) + " failed: " + err.Error())
+		ob := observe(dbdir, d.Prefix, d.NIdx, false)
+		if ob.OpenErr != "" {
+			fail("reopen after lifetime " + strconv.Itoa(n) + " failed: " + ob.OpenErr)
 			return
 		}
-		es, bad := dump(db)
-		db.Close()
-		if bad != "" {
-			fail(bad)
+		es := ob.Entries
+		if ob.Bad != "" {
+			fail(ob.Bad)
 		}
 		// statistics: index entries that point to an id without a stored value
 		vals := map[string]bool{}
 		for _, e := range es {
-			if e.v != nil {
-				vals[strings.TrimPrefix(e.k, prefixOf(d.Prefix))] = true
+			if e.V != nil {
+				vals[strings.TrimPrefix(e.K, prefixOf(d.Prefix))] = true
 			}
 		}
 		for _, e := range es {
-			if i := strings.IndexByte(e.k, 0); e.v == nil && i >= 0 && !vals[e.k[i+1:]] {
+			if i := strings.IndexByte(e.K, 0); e.V == nil && i >= 0 && !vals[e.K[i+1:]] {
 				jo.stats["phantom-index-entry-before-rebuild"]++
 				if r.pt == 7 || r.pt == 8 {
 					jo.stats["phantom-index-entry-of-uncommitted-init"]++
@@ -397,28 +478,27 @@ func runJob(d jobDesc) (jo jobOut) {
 		}
 		runs = append(runs, runTerm(ls, r, es))
 	}
-	db, _, qs, err := openStore(dbdir, d.Prefix, d.NIdx)
-	if err != nil {
-		fail("final reopen failed: " + err.Error())
+	ob := observe(dbdir, d.Prefix, d.NIdx, true)
+	if ob.OpenErr != "" {
+		fail("final reopen failed: " + ob.OpenErr)
 		return
 	}
-	rberr := qs.RebuildIndexes()
-	es, bad := dump(db)
-	if bad != "" {
-		fail(bad)
+	if ob.Bad != "" {
+		fail(ob.Bad)
 	}
+	if ob.QueryErr != "" {
+		fail("query failed: " + ob.QueryErr)
+	}
+	es := ob.Entries
 	var qts []string
 	for _, name := range []string{"ia", "ib"}[:d.NIdx] {
-		res, err := qs.Query(url.Values{"idx": {name}})
-		if err != nil {
-			fail("query failed: " + err.Error())
-		}
-		ids, _ := res.([]string)
-		sort.Strings(ids)
-		qts = append(qts, "("+B(name)+","+BList(ids)+")")
+		qts = append(qts, "("+B(name)+","+BList(ob.Queries[name])+")")
 	}
-	db.Close()
-	jo.c.Term = fmt.Sprintf("CC %s %d %s %s %s %s", B(prefixOf(d.Prefix)), d.NIdx, List(runs), Bool(rberr == nil), obsTerm(es), List(qts))
+	if ob.RebuildErr != "" {
+		jo.stats["rebuild-failed"]++
+		jo.c.Tags = append(jo.c.Tags, "rebuild-error")
+	}
+	jo.c.Term = fmt.Sprintf("CC %s %d %s %s %s %s", B(prefixOf(d.Prefix)), d.NIdx, List(runs), Bool(ob.RebuildErr == ""), obsTerm(es), List(qts))
 	return
 }
 
@@ -427,4 +507,240 @@ func prefixOf(p string) string {
 		return ""
 	}
 	return p + "."
+}
+
+// ---------------------------------------------------------------- workloads
+
+var avals = []string{"x", "y", "z"}
+var bvals = []string{"", "u", "v"}
+
+// genOps makes a seeded workload body over the ids known to exist / not to exist.
+func genOps(r *Rng, live map[string]val, seeds []seed, n int, forceSeedDelete bool) []op {
+	var ops []op
+	fresh := 0
+	pickLive := func() string {
+		ks := make([]string, 0, len(live))
+		for k := range live {
+			ks = append(ks, k)
+		}
+		sort.Strings(ks)
+		if len(ks) == 0 {
+			return "zz"
+		}
+		return ks[r.Intn(len(ks))]
+	}
+	delAt := -1
+	if forceSeedDelete {
+		delAt = 1 + r.Intn(n-2)
+	}
+	for i := 0; i < n; i++ {
+		k := r.Intn(100)
+		switch {
+		case i == delAt:
+			id := seeds[r.Intn(len(seeds))].ID
+			ops = append(ops, op{K: "delete", ID: id})
+			delete(live, id)
+		case k < 22: // create a new id
+			fresh++
+			id := fmt.Sprintf("n%d", fresh)
+			if _, ok := live[id]; ok {
+				id = fmt.Sprintf("m%d", i)
+			}
+			v := val{r.Pick(avals), r.Pick(bvals)}
+			ops = append(ops, op{K: "create", ID: id, A: v.A, B: v.B})
+			live[id] = v
+		case k < 30: // create an existing id (fails) or a deleted seed again
+			id := pickLive()
+			if r.Chance(40) {
+				id = seeds[r.Intn(len(seeds))].ID
+			}
+			v := val{r.Pick(avals), r.Pick(bvals)}
+			ops = append(ops, op{K: "create", ID: id, A: v.A, B: v.B})
+			if _, ok := live[id]; !ok {
+				live[id] = v
+			}
+		case k < 62: // update
+			id := pickLive()
+			old := live[id]
+			v := old
+			switch r.Intn(4) {
+			case 0:
+				v.A = r.Pick(avals)
+			case 1:
+				v.B = r.Pick(bvals)
+			case 2:
+				v = val{r.Pick(avals), r.Pick(bvals)}
+			} // 3: identical value
+			ops = append(ops, op{K: "update", ID: id, A: v.A, B: v.B})
+			if _, ok := live[id]; ok {
+				live[id] = v
+			}
+		case k < 68: // update a missing id
+			ops = append(ops, op{K: "update", ID: "zz", A: "x"})
+		case k < 86: // delete
+			id := pickLive()
+			ops = append(ops, op{K: "delete", ID: id})
+			delete(live, id)
+		case k < 92: // delete a missing id
+			ops = append(ops, op{K: "delete", ID: "zz"})
+		default: // Init again in the same process
+			ops = append(ops, op{K: "init", Seeds: seeds})
+		}
+	}
+	return ops
+}
+
+type workload struct {
+	prefix     string
+	nidx       int
+	ops1, ops2 []op
+}
+
+func genWorkload(r *Rng, w int, thorough bool) workload {
+	wl := workload{nidx: 2}
+	if w%2 == 1 {
+		wl.prefix = "pfx"
+	}
+	if w%4 == 1 || w%4 == 2 {
+		wl.nidx = 1
+	}
+	ns := 2 + r.Intn(2)
+	if w < 2 {
+		ns = 3
+	}
+	var seeds []seed
+	live := map[string]val{}
+	for i := 1; i <= ns; i++ {
+		s := seed{fmt.Sprintf("s%d", i), r.Pick(avals), r.Pick(bvals)}
+		seeds = append(seeds, s)
+		live[s.ID] = val{s.A, s.B}
+	}
+	n := 10
+	if thorough {
+		n = 8 + r.Intn(8)
+	}
+	wl.ops1 = append([]op{{K: "init", Seeds: seeds}}, genOps(r, live, seeds, n, true)...)
+	wl.ops2 = append([]op{{K: "init", Seeds: seeds}}, genOps(r, live, seeds, 3+r.Intn(3), false)...)
+	return wl
+}
+
+// ---------------------------------------------------------------- main
+
+func runAll(descs []jobDesc) []jobOut {
+	outs := make([]jobOut, len(descs))
+	ch := make(chan int)
+	var wg sync.WaitGroup
+	for k := 0; k < 16; k++ {
+		wg.Add(1)
+		go func() {
+			defer wg.Done()
+			for i := range ch {
+				outs[i] = runJob(descs[i])
+			}
+		}()
+	}
+	for i := range descs {
+		ch <- i
+	}
+	close(ch)
+	wg.Wait()
+	return outs
+}
+
+func main() {
+	if len(os.Args) > 1 && os.Args[1] == "child" {
+		childMain(os.Args[2:])
+		return
+	}
+	if len(os.Args) > 1 && os.Args[1] == "observe" {
+		observeMain(os.Args[2:])
+		return
+	}
+	o := ParseOpts()
+	var err error
+	if self, err = os.Executable(); err != nil {
+		panic(err)
+	}
+	r := NewRng(o.Seed)
+	thorough := o.Tier == "thorough"
+	var descs []jobDesc
+	dist := map[string]int{}
+	if o.Replay != "" {
+		var d jobDesc
+		if err := LoadReplay(o.Replay, &d); err != nil {
+			panic(err)
+		}
+		descs = append(descs, d)
+	} else {
+		nw := 2
+		if thorough {
+			nw = 40
+		}
+		if o.N > 0 {
+			nw = o.N
+		}
+		var wls []workload
+		var dry []jobDesc
+		for w := 0; w < nw; w++ {
+			wl := genWorkload(r, w, thorough)
+			wls = append(wls, wl)
+			dry = append(dry, jobDesc{wl.prefix, wl.nidx, []lifeSpec{{Ops: wl.ops1}, {Ops: wl.ops2}}})
+		}
+		// learn how often every crash point is hit by the first lifetime
+		douts := runAll(dry)
+		kill2 := []string{"init-seed-set:1", "init-before-marker:1", "create-before:1", "create-committed:1",
+			"update-before:1", "update-committed:1", "delete-committed:1", "index-before:1", "index-committed:1", "index-before:2"}
+		for w, wl := range wls {
+			descs = append(descs, dry[w])
+			hits := douts[w].first.hits
+			for pi := 1; pi < len(points); pi++ {
+				for n := 1; n <= hits[points[pi]]; n++ {
+					l2 := lifeSpec{Ops: wl.ops2}
+					if r.Chance(45) {
+						l2.Kill = r.Pick(kill2)
+					}
+					descs = append(descs, jobDesc{wl.prefix, wl.nidx,
+						[]lifeSpec{{Ops: wl.ops1, Kill: fmt.Sprintf("%s:%d", points[pi], n)}, l2}})
+					dist["kill-pairs-enumerated"]++
+				}
+			}
+			// killed inside Init again and again, then a clean lifetime
+			descs = append(descs, jobDesc{wl.prefix, wl.nidx, []lifeSpec{
+				{Ops: wl.ops1, Kill: "init-seed-set:2"}, {Ops: wl.ops1, Kill: "init-before-marker:1"},
+				{Ops: wl.ops1, Kill: "index-before:2"}, {Ops: wl.ops2}}})
+			// a slow application listener lets the index goroutine overtake the Init transaction
+			for _, k := range []string{"init-before-marker:1", "index-committed:2", "index-before:3"} {
+				descs = append(descs, jobDesc{wl.prefix, wl.nidx, []lifeSpec{
+					{Ops: wl.ops1, Kill: k, SlowUs: 3000}, {Ops: wl.ops2, SlowUs: 500}}})
+			}
+			if thorough {
+				us := int(douts[w].first.dur / time.Microsecond)
+				for k := 0; k < 8; k++ {
+					descs = append(descs, jobDesc{wl.prefix, wl.nidx,
+						[]lifeSpec{{Ops: wl.ops1, DelayUs: 1 + r.Intn(us+1)}, {Ops: wl.ops2}}})
+					dist["random-time-kills-requested"]++
+				}
+			}
+		}
+	}
+	outs := runAll(descs)
+	var cases []Case
+	var impl []ImplViolation
+	for _, jo := range outs {
+		impl = append(impl, jo.impl...)
+		for k, v := range jo.stats {
+			dist[k] += v
+		}
+		if jo.c.Term != "" {
+			cases = append(cases, jo.c)
+		}
+	}
+	cfgs := map[string]bool{}
+	for _, d := range descs {
+		cfgs[fmt.Sprintf("%s/%d", d.Prefix, d.NIdx)] = true
+	}
+	dist["store-configurations(prefix x indexes)"] = len(cfgs)
+	Emit(o, "C12", "From GoRes Require Import Run.Run_C12.", "ccase",
+		"one case = one BadgerDB directory: child process runs Init + a seeded workload of creates/updates/deletes/re-inits and is SIGKILLed at one (crash point, occurrence) pair - every pair of every workload is enumerated - or at a random time, is restarted on the same directory (sometimes killed again), then the parent reopens the database, records all keys/values, calls RebuildIndexes and queries every index; distinct by (configuration, workloads, kill points)",
+		cases, dist, nil, impl, 12)
 }
